@@ -206,6 +206,7 @@ Section Interp.
   | Key                           (* MRP relative volume: a HID key press, no level involved *)
   | Push (old new : num)          (* listener.volume_update(old, new) *)
   | Echo (d : num)                (* RaopAudio._volume_changed stored pct_to_dbfs(update) *)
+  | Adopt (d : num)               (* RaopStream.stream_file took over the receiver's initialVolume (dBFS) *)
   | Swallowed (e : exn).          (* exception inside a call_soon listener: logged by the loop, nobody sees it *)
 
   (* ---------------------------------------------------------------- facade + RaopAudio *)
@@ -216,7 +217,9 @@ Section Interp.
   | RRead                         (* atv.audio.volume *)
   | RReport (v : num)             (* some other protocol dispatches UpdatedState.Volume v *)
   | RPump                         (* the event loop runs the queued call_soon listeners *)
-  | RInject (d : num).            (* the stream side stores a dBFS level in the context (device-reported) *)
+  | RInject (d : num)             (* the stream side stores a dBFS level in the context (device-reported) *)
+  | RStream (initial : option num). (* await atv.stream.stream_file(...): a stream starts (and ends); the
+                                       receiver advertises info["initialVolume"] = initial dBFS, or nothing *)
 
   Record rstate := {
     ctx : option num;             (* playback_manager.context.volume (dBFS) *)
@@ -256,6 +259,39 @@ Section Interp.
                 let '(s2, e2) := deliver_all s1 t in (s2, e1 ++ e2)
     end.
 
+  (* RaopStream.stream_file, the part that decides the level (raop/__init__.py:389-409):
+       if not self.audio.has_changed_volume and "initialVolume" in client.info:
+           context.volume = initial_volume
+       else:
+           try:    await self.audio.set_volume(self.audio.volume)
+           except Exception: volume = self.audio.volume      (deferred to send_audio)
+       await client.send_audio(..., volume=volume)           (sets it only `if volume:`)
+     has_changed_volume is `context.volume is not None`. *)
+  Definition is_exc (e : event) : bool := match e with Exc _ => true | _ => false end.
+
+  Definition rstream (s : rstate) (initial : option num) : rstate * list event :=
+    match ctx s, initial with
+    | None, Some d => ({| ctx := Some d; pend := pend s; fvol := fvol s |}, [Adopt d])
+    | _, _ =>
+        match raop_volume (ctx s) with
+        | Raise e => (s, [Exc e])
+        | Ok v =>
+            let '(s1, ev) := raop_set s v in
+            if existsb is_exc ev then
+              let ev' := filter (fun e => negb (is_exc e)) ev in
+              match raop_volume (ctx s1) with
+              | Raise e2 => (s1, ev' ++ [Exc e2])
+              | Ok v2 =>
+                  if deq D v2 zero then (s1, ev')
+                  else match pct_to_dbfs v2 with
+                       | Raise e3 => (s1, ev' ++ [Exc e3])
+                       | Ok d => ({| ctx := Some d; pend := pend s1; fvol := fvol s1 |}, ev' ++ [Dev d])
+                       end
+              end
+            else (s1, ev)
+        end
+    end.
+
   Definition rstep (s : rstate) (o : rop) : rstate * list event :=
     match o with
     | RSet level =>
@@ -278,6 +314,7 @@ Section Interp.
     | RReport v => ({| ctx := ctx s; pend := pend s ++ [v]; fvol := fvol s |}, [])
     | RPump => deliver_all {| ctx := ctx s; pend := []; fvol := fvol s |} (pend s)
     | RInject d => ({| ctx := Some d; pend := pend s; fvol := fvol s |}, [])
+    | RStream initial => rstream s initial
     end.
 
   Fixpoint rrun (s : rstate) (ops : list rop) : list (list event) :=
@@ -293,7 +330,8 @@ Section Interp.
 
   Inductive mop :=
   | MSet (level : num) | MUp | MDown | MRead
-  | MReport (v : num).
+  | MReport (v : num)
+  | MOther (v : num).             (* VolumeDidChange for ANOTHER output device of the group: nothing changes *)
 
   Record mstate := { mvol : num; mabs : bool; mrel : bool }.
 
@@ -312,6 +350,7 @@ Section Interp.
         else (s, [])
     | MRead => if in_range (mvol s) then (s, [Ret (mvol s)]) else (s, [Exc ProtocolError])
     | MReport v => ({| mvol := v; mabs := mabs s; mrel := mrel s |}, [])
+    | MOther _ => (s, [])
     end.
 
   Fixpoint mrun (s : mstate) (ops : list mop) : list (list event) :=
@@ -329,6 +368,7 @@ Arguments Dev {D} d.
 Arguments Key {D}.
 Arguments Push {D} old new.
 Arguments Echo {D} d.
+Arguments Adopt {D} d.
 Arguments Swallowed {D} e.
 Arguments RSet {D} level.
 Arguments RUp {D}.
@@ -337,11 +377,13 @@ Arguments RRead {D}.
 Arguments RReport {D} v.
 Arguments RPump {D}.
 Arguments RInject {D} d.
+Arguments RStream {D} initial.
 Arguments MSet {D} level.
 Arguments MUp {D}.
 Arguments MDown {D}.
 Arguments MRead {D}.
 Arguments MReport {D} v.
+Arguments MOther {D} v.
 
 (* ------------------------------------------------------------------ guard comparisons on
    the extended values a Python float can take.  Every finite binary64 value is a rational
@@ -384,6 +426,7 @@ Definition event_same (a b : @event DF) : bool :=
   | Key, Key => true
   | Push o n, Push o' n' => fsame o o' && fsame n n'
   | Echo x, Echo y => fsame x y
+  | Adopt x, Adopt y => fsame x y
   | Swallowed e, Swallowed f => exn_eqb e f
   | _, _ => false
   end.
